@@ -165,8 +165,8 @@ func c05Env(p *Prepared, withFlusher bool, fault *FsFault) *Env {
 	if withFlusher {
 		env.Extra = func(_, _ transfer.Conn) {
 			// the application flushes all metadata on abort (SIGINT): it may land anywhere
-			vrt.GoNamed("flushall", "R", func() {
-				vrt.Sleep(50 * time.Millisecond)
+			// a low-priority thread: one deviation puts it at any scheduling point of the run
+			vrt.GoLow("flushall", "R", func() {
 				transfer.FlushAllFlushers()
 			})
 		}
@@ -195,6 +195,7 @@ func checkC05(p *Prepared, x *vrt.Exec, o *Outcome, flusher bool, fault *FsFault
 
 func c05Cfg() vrt.Config {
 	cfg := baseCfg()
+	cfg.LowThreads = true // the flush-all thread stands for SIGINT: one deviation away everywhere
 	return cfg
 }
 
